@@ -105,7 +105,7 @@ def writeStep (g : WGraph) (pred : List (Nat × Nat)) (st : WState) : Py WState 
         let (ringIdx, bond) := ri
         match st.markers.lookup ringIdx with
         | none =>
-          let marker := lowestFree (st.markers.map (·.2)) (st.markers.length + 1) 1
+          let marker := lowestFree (st.markers.map (·.2)) ((st.markers.map (·.2)).foldl max 0 + 1) 1
           let s ← edgeSymbol g bond.1 bond.2
           pure ({ st with markers := st.markers ++ [(ringIdx, marker)] }, strs ++ [(decide (marker ≥ 10), s ++ markerText marker)])
         | some marker =>
